@@ -28,6 +28,10 @@ var (
 	ErrJSONSchemaDependentSchemas   = errors.New("dependentSchemas is not supported")
 	ErrJSONSchemaPropertyNames      = errors.New("propertyNames is not supported")
 	ErrJSONSchemaContains           = errors.New("contains/minContains/maxContains is not supported")
+	ErrJSONSchemaNot                = errors.New("not is not supported")
+	ErrJSONSchemaDependentRequired  = errors.New("dependentRequired is not supported")
+	ErrJSONSchemaUniqueItems        = errors.New("uniqueItems is not supported")
+	ErrJSONSchemaPropertyCount      = errors.New("minProperties/maxProperties is not supported")
 )
 
 // FromJSONSchemaOptions configures the JSON Schema to GoZod conversion.
@@ -170,6 +174,20 @@ func (ctx *fromJSONSchemaContext) checkUnsupportedFeatures(s *lib.Schema) error 
 	}
 	if s.Contains != nil || s.MinContains != nil || s.MaxContains != nil {
 		return ErrJSONSchemaContains
+	}
+	// Assertion keywords the converter never reads: without these checks a
+	// strict conversion returned a schema that silently ignores them.
+	if s.Not != nil {
+		return ErrJSONSchemaNot
+	}
+	if s.DependentRequired != nil {
+		return ErrJSONSchemaDependentRequired
+	}
+	if s.UniqueItems != nil {
+		return ErrJSONSchemaUniqueItems
+	}
+	if s.MinProperties != nil || s.MaxProperties != nil {
+		return ErrJSONSchemaPropertyCount
 	}
 	return nil
 }
